@@ -312,6 +312,9 @@ func (r *rpcPlanVisitorFederation) EnterField(ref int) {
 		}
 
 		r.entityInfo.entityRootFieldRef = ref
+		if r.operation.FieldAliasIsDefined(ref) {
+			r.plan.EntitiesAlias = r.operation.FieldAliasString(ref)
+		}
 		return
 	}
 
@@ -519,6 +522,14 @@ func (r *rpcPlanVisitorFederation) enterFieldResolver(ref int, fieldDefRef int) 
 		fieldRef:               ref,
 		responsePath:           r.walker.Path[1:].WithoutInlineFragmentNames().WithFieldNameItem(r.operation.FieldAliasOrNameBytes(ref)),
 		fieldDefinitionTypeRef: r.definition.FieldDefinitionType(fieldDefRef),
+	}
+
+	// The entities are merged under "_entities" even if the root field has an alias (see RPCExecutionPlan.EntitiesAlias).
+	if r.plan.EntitiesAlias != "" && len(resolvedField.responsePath) > 0 {
+		responsePath := make(ast.Path, len(resolvedField.responsePath))
+		copy(responsePath, resolvedField.responsePath)
+		responsePath[0] = ast.PathItem{Kind: ast.FieldName, FieldName: []byte("_entities")}
+		resolvedField.responsePath = responsePath
 	}
 
 	r.callIndex++
